@@ -207,6 +207,32 @@ pub fn precise_diff<'py>(
     let mut total_days = helpers::day_number(dtinfo2.year, dtinfo2.month as u8, dtinfo2.day as u8)
         - helpers::day_number(dtinfo1.year, dtinfo1.month as u8, dtinfo1.day as u8);
 
+    // No variable-length units when the two wall clock times are less than a day apart
+    let mut sub_day = total_days == 0;
+
+    if !sub_day && total_days.abs() == 1 && dtinfo1.is_datetime && dtinfo2.is_datetime {
+        let dt1dt: &Bound<PyDateTime> = dt1.downcast()?;
+        let dt2dt: &Bound<PyDateTime> = dt2.downcast()?;
+        let time1 = (
+            dt1dt.get_hour(),
+            dt1dt.get_minute(),
+            dt1dt.get_second(),
+            dt1dt.get_microsecond(),
+        );
+        let time2 = (
+            dt2dt.get_hour(),
+            dt2dt.get_minute(),
+            dt2dt.get_second(),
+            dt2dt.get_microsecond(),
+        );
+
+        sub_day = if total_days == 1 {
+            time2 < time1
+        } else {
+            time1 < time2
+        };
+    }
+
     if dtinfo1.is_datetime {
         let dt1dt: &Bound<PyDateTime> = dt1.downcast()?;
 
@@ -215,7 +241,7 @@ pub fn precise_diff<'py>(
         dtinfo1.second = i32::from(dt1dt.get_second());
         dtinfo1.microsecond = dt1dt.get_microsecond() as i32;
 
-        if !in_same_tz && dtinfo1.offset != 0 || total_days == 0 {
+        if !in_same_tz && dtinfo1.offset != 0 || sub_day {
             dtinfo1.hour -= dtinfo1.offset / SECS_PER_HOUR as i32;
             dtinfo1.offset %= SECS_PER_HOUR as i32;
             dtinfo1.minute -= dtinfo1.offset / SECS_PER_MIN as i32;
@@ -262,7 +288,7 @@ pub fn precise_diff<'py>(
         dtinfo2.second = i32::from(dt2dt.get_second());
         dtinfo2.microsecond = dt2dt.get_microsecond() as i32;
 
-        if !in_same_tz && dtinfo2.offset != 0 || total_days == 0 {
+        if !in_same_tz && dtinfo2.offset != 0 || sub_day {
             dtinfo2.hour -= dtinfo2.offset / SECS_PER_HOUR as i32;
             dtinfo2.offset %= SECS_PER_HOUR as i32;
             dtinfo2.minute -= dtinfo2.offset / SECS_PER_MIN as i32;
